@@ -76,6 +76,11 @@ pub struct CliCase {
     pub env_variant: u8,
 }
 
+fn dev_full_is_device() -> bool {
+    use std::os::unix::fs::FileTypeExt;
+    std::fs::metadata("/dev/full").map(|m| m.file_type().is_char_device()).unwrap_or(false)
+}
+
 impl CliCase {
     pub fn to_json(&self) -> Value {
         json!({
@@ -214,7 +219,9 @@ pub fn gen_cli_case(seed: u64, index: u64, strace: bool) -> CliCase {
         11 => OutputKind::Relative,
         12 => OutputKind::OddName,
         13 if r.chance(1, 2) => OutputKind::ExistingNearCopy,
-        13 if r.chance(1, 2) => OutputKind::DevFull,
+        // only when /dev/full really is the character device (a broken program under observation may
+        // have removed or replaced it earlier on this machine; then the case would judge the machine)
+        13 if r.chance(1, 2) && dev_full_is_device() => OutputKind::DevFull,
         _ => OutputKind::SameAsInput,
     };
     let via_stdin = matches!(input_kind, InputKind::Valid | InputKind::Malformed | InputKind::NotUtf8 | InputKind::Empty) && output != OutputKind::SameAsInput && r.chance(1, 8);
